@@ -125,6 +125,16 @@ func InIndex(ix adapt.IndexSpec, it val.Item) bool {
 	return true
 }
 
+// EmptyHashOnlyKey reports that the item's key in the hash-only index is an empty string or empty binary: the
+// library renders the index key as "" and takes that for "the item lacks the key attribute" (listed finding).
+func EmptyHashOnlyKey(ix adapt.IndexSpec, it val.Item) bool {
+	if ix.Range != "" {
+		return false
+	}
+	v, ok := it[ix.Hash]
+	return ok && (v.K == val.KS || v.K == val.KB) && v.K == typ(ix.HashT) && v.Str == ""
+}
+
 // Source returns the items visible through the base table ("" index) or an index.
 func (t *Table) Source(index string) ([]val.Item, bool) {
 	out := []val.Item{}
@@ -160,7 +170,13 @@ func (t *Table) Desc() *adapt.Desc {
 	d := &adapt.Desc{Name: t.Spec.Name, Hash: t.Spec.Hash, Range: t.Spec.Range, Count: int64(len(t.Items))}
 	for _, ix := range t.Spec.Indexes {
 		src, _ := t.Source(ix.Name)
-		d.Indexes = append(d.Indexes, adapt.IndexDesc{Name: ix.Name, Local: ix.Local, Hash: ix.Hash, Range: ix.Range, Count: int64(len(src)), HasCnt: true, Proj: ix.ProjType(), NonKey: append([]string(nil), ix.NonKey...)})
+		id := adapt.IndexDesc{Name: ix.Name, Local: ix.Local, Hash: ix.Hash, Range: ix.Range, Count: int64(len(src)), HasCnt: true, Proj: ix.ProjType(), NonKey: append([]string(nil), ix.NonKey...)}
+		for _, it := range src {
+			if EmptyHashOnlyKey(ix, it) {
+				id.EmptyKeyed++
+			}
+		}
+		d.Indexes = append(d.Indexes, id)
 	}
 	adapt.SortIndexDescs(d.Indexes)
 	return d
@@ -418,6 +434,10 @@ func compareDesc(rule string, got, want *adapt.Desc) []Diff {
 		}
 		if g.Proj != w.Proj || strings.Join(g.NonKey, ",") != strings.Join(w.NonKey, ",") {
 			ds = append(ds, Diff{rule + "-index-projection", fmt.Sprintf("table %s index %s is described with projection %q %v, declared %q %v", want.Name, g.Name, g.Proj, g.NonKey, w.Proj, w.NonKey)})
+		}
+		if g.HasCnt && g.Count != w.Count && w.EmptyKeyed > 0 && g.Count == w.Count-w.EmptyKeyed {
+			ds = append(ds, Diff{"not-indexed~empty-hash-only-index-key", fmt.Sprintf("table %s index %s ItemCount %d, want %d: the %d items whose key in this hash-only index is an empty string / binary are not counted", want.Name, g.Name, g.Count, w.Count, w.EmptyKeyed)})
+			continue
 		}
 		if g.HasCnt && g.Count != w.Count {
 			ds = append(ds, Diff{rule + "-index-count", fmt.Sprintf("table %s index %s ItemCount %d, want %d", want.Name, g.Name, g.Count, w.Count)})
@@ -909,6 +929,24 @@ func (c *Client) stepSearch(op adapt.Op, got adapt.Outcome) []Diff {
 	if eq, qrule := itemSetsEq("search-set", got.Items, want); !eq {
 		missing, extra := setDelta(want, got.Items)
 		rule := qrule
+		if ix, isIx := t.Index(op.Index); isIx && op.Index != "" && rule == "search-set" && len(missing) > 0 && len(extra) == 0 {
+			only := true
+			for _, it := range want {
+				found := false
+				for _, g := range got.Items {
+					if g.Canon() == it.Canon() {
+						found = true
+						break
+					}
+				}
+				if !found && !EmptyHashOnlyKey(ix, it) {
+					only = false
+				}
+			}
+			if only {
+				return diff("not-indexed~empty-hash-only-index-key", "%s(index=%q) does not return the %d items whose key in this hash-only index is an empty string / binary: %v", op.Kind, op.Index, len(missing), missing)
+			}
+		}
 		if rule == "search-set" && len(missing) > 0 && len(extra) == 0 {
 			rule = "search-missing"
 		} else if rule == "search-set" && len(extra) > 0 && len(missing) == 0 {
